@@ -124,9 +124,16 @@ def session_scenarios(ctx, rng, cov):
             if len(outs) != 1:
                 note("response_count_%d" % len(outs))
                 continue
+            decodable = supported
+            if supported:
+                try:
+                    IC.messages.RequestMessage().read(IC.utils.BytearrayStream(b))
+                except Exception:
+                    decodable = False
+                    note("generated_request_not_decodable")
             res.append(("generated" if supported else "unsupported-version",
                         ",".join(it["op"] for it in rq["items"])[:60],
-                        version_of_request(rq) if supported else None, outs[0], b))
+                        version_of_request(rq) if decodable else None, outs[0], b))
             if supported:
                 try:
                     m = IC.messages.ResponseMessage()
@@ -143,9 +150,20 @@ def session_scenarios(ctx, rng, cov):
                 continue
             for (rq, b), o in zip(group, outs):
                 supported = rq["version"] in (10, 11, 12, 13, 14, 20)
+                if supported:
+                    try:
+                        IC.messages.RequestMessage().read(IC.utils.BytearrayStream(b))
+                    except Exception:
+                        supported = False
                 res.append(("pipelined", ",".join(it["op"] for it in rq["items"])[:60],
                             version_of_request(rq) if supported else None, o, b))
-        good = [x for x in reqs if x[0]["version"] in (10, 11, 12, 13, 14, 20) and x[0]["items"]]
+        def _dec_ok(b):
+            try:
+                IC.messages.RequestMessage().read(IC.utils.BytearrayStream(b))
+                return True
+            except Exception:
+                return False
+        good = [x for x in reqs if x[0]["version"] in (10, 11, 12, 13, 14, 20) and x[0]["items"] and _dec_ok(x[1])]
         # 2. oversize replacement
         for (rq, b) in good[:30 if ctx.tier == "quick" else 300]:
             rq2 = json.loads(json.dumps(rq))
